@@ -29,8 +29,8 @@ import (
 const (
 	tSEP  = "<SEP>"
 	tSEMI = "<;>" // a ';' that is followed by another statement on the same line (a trailing ';' is optional and dropped)
-	tIN  = "<INDENT>"
-	tOUT = "<OUTDENT>"
+	tIN   = "<INDENT>"
+	tOUT  = "<OUTDENT>"
 )
 
 var keywords = map[string]bool{"and": true, "break": true, "continue": true, "def": true, "elif": true, "else": true, "for": true, "if": true, "in": true,
@@ -258,36 +258,122 @@ func normalise(seq []string) []string {
 
 var reNumber = regexp.MustCompile(`^([0-9]|\.[0-9])`)
 
-// sameTokens compares the input sequence a with the re-rendered sequence s. The renderer may add
-// parentheses in exactly two documented places where the parser needs none: around a number before
-// '.', and around a lambda that is the condition of a comprehension's if clause (errors.star:
-// "Lambda is ok though"). Any other difference is a change of the token sequence.
-func sameTokens(a, s []string) (bool, string) {
+// allowedExtraParen reports whether the parenthesis s[j], present in the re-rendered sequence only,
+// is one the renderer adds although neither the grammar nor the parser needs it:
+//   - around a number before '.' (the text has blanks there: `1 . f`);
+//   - around a lambda that is the condition of a comprehension's if clause (errors.star: "Lambda is ok though");
+//   - around a unary +, -, ~ expression that is a complete loop variable (Operand = ('-' | '+') PrimaryExpr is a
+//     PrimaryExpr in the grammar; the resolver rejects it).
+//
+// k is the index of the matching ')'.
+func allowedExtraParen(s []string, j int) (k int, ok bool) {
+	depth := 0
+	k = -1
+	for x := j; x < len(s); x++ {
+		switch s[x] {
+		case "(":
+			depth++
+		case ")":
+			depth--
+		}
+		if depth == 0 {
+			k = x
+			break
+		}
+	}
+	if k < 0 || j+1 >= len(s) {
+		return k, false
+	}
+	next := ""
+	if k+1 < len(s) {
+		next = s[k+1]
+	}
+	prev := ""
+	if j > 0 {
+		prev = s[j-1]
+	}
+	switch {
+	case reNumber.MatchString(s[j+1]) && k == j+2 && next == ".":
+		return k, true
+	case prev == "if" && s[j+1] == "lambda" && (next == "for" || next == "if" || next == "]" || next == "}"):
+		return k, true
+	case (s[j+1] == "+" || s[j+1] == "-" || s[j+1] == "~") && (prev == "for" || prev == ",") && (next == "," || next == "in"):
+		return k, true
+	}
+	return k, false
+}
+
+// dropSelfAliases removes `name =` from `name = "name"` inside load(...): the renderer spells a
+// loaded name whose local name equals the original name without the alias (same LoadStmt).
+func dropSelfAliases(seq []string, vals map[string]string) []string {
+	var out []string
+	for i := 0; i < len(seq); i++ {
+		out = append(out, seq[i])
+		if seq[i] != "load" || i+1 >= len(seq) || seq[i+1] != "(" {
+			continue
+		}
+		depth := 0
+		j := i + 1
+		for ; j < len(seq); j++ {
+			t := seq[j]
+			if t == "(" || t == "[" || t == "{" {
+				depth++
+			} else if t == ")" || t == "]" || t == "}" {
+				depth--
+			}
+			if depth == 1 && j+2 < len(seq) && seq[j+1] == "=" && tokClass(t) == "IDENT" && tokClass(seq[j+2]) == "STRING" {
+				v, ok := vals[seq[j+2]]
+				if !ok {
+					if u, err := strconv.Unquote(seq[j+2]); err == nil {
+						v, ok = u, true
+					}
+				}
+				if ok && v == t {
+					j++ // skip the name and '='
+					continue
+				}
+			}
+			out = append(out, t)
+			if depth == 0 {
+				break
+			}
+		}
+		i = j
+	}
+	return out
+}
+
+// sameTokens compares the input sequence a with the re-rendered sequence s. String literals that the
+// renderer spells anew (the names in a load statement) are compared by value: vals maps the literals
+// of the input, all of which the engine generated, to the strings they denote.
+func sameTokens(a, s []string, vals map[string]string) (bool, string) {
 	i, j := 0, 0
-	var open []int // indices in s of skipped '('
+	skip := map[int]bool{}
 	for i < len(a) || j < len(s) {
-		if i < len(a) && j < len(s) && a[i] == s[j] {
-			i++
+		if skip[j] {
 			j++
 			continue
+		}
+		if i < len(a) && j < len(s) {
+			if a[i] == s[j] {
+				i++
+				j++
+				continue
+			}
+			if v, ok := vals[a[i]]; ok && tokClass(s[j]) == "STRING" {
+				if u, err := strconv.Unquote(s[j]); err == nil && u == v {
+					i++
+					j++
+					continue
+				}
+			}
 		}
 		if j < len(s) && s[j] == "(" {
-			// whitelisted extra parenthesis?
-			if j+2 < len(s) && reNumber.MatchString(s[j+1]) && s[j+2] == ")" && j+3 < len(s) && s[j+3] == "." {
-				open = append(open, j)
+			if k, ok := allowedExtraParen(s, j); ok {
+				skip[k] = true
 				j++
 				continue
 			}
-			if j > 0 && s[j-1] == "if" && j+1 < len(s) && s[j+1] == "lambda" {
-				open = append(open, j)
-				j++
-				continue
-			}
-		}
-		if j < len(s) && s[j] == ")" && len(open) > 0 {
-			open = open[:len(open)-1]
-			j++
-			continue
 		}
 		ta, ts := "<end>", "<end>"
 		if i < len(a) {
@@ -302,10 +388,7 @@ func sameTokens(a, s []string) (bool, string) {
 		case ta == "(" || ta == ")":
 			return false, "parenthesis of the text not in the tree"
 		}
-		return false, fmt.Sprintf("input token %s missing or changed in the tree", tokClass(ta))
-	}
-	if len(open) != 0 {
-		return false, "re-associated (the tree needs parentheses that the text lacks)"
+		return false, "token of the text missing or changed in the tree"
 	}
 	return true, ""
 }
@@ -391,7 +474,16 @@ func nearMissCase(c *driver.Ctx) {
 	}
 	// the unmodified re-joined text must itself be accepted with the same tokens (harness check)
 	baseJoined, _ := joinLines(lines, indent)
-	if !judgeNearMiss(c, r, lines, indent, "none", baseText, baseJoined, true) {
+	vals := map[string]string{}
+	for _, s := range stmts {
+		syntax.Walk(s, func(n syntax.Node) bool {
+			if l, ok := n.(*syntax.Literal); ok && (l.Token == syntax.STRING || l.Token == syntax.BYTES) {
+				vals[l.Raw] = l.Value.(string)
+			}
+			return true
+		})
+	}
+	if !judgeNearMiss(c, r, lines, indent, vals, "none", baseText, baseJoined, true) {
 		return
 	}
 	const perBase = 20
@@ -433,12 +525,12 @@ func nearMissCase(c *driver.Ctx) {
 		nl := make([][]string, len(lines))
 		copy(nl, lines)
 		nl[li] = mut
-		judgeNearMiss(c, r, nl, indent, op, baseText, baseJoined, false)
+		judgeNearMiss(c, r, nl, indent, vals, op, baseText, baseJoined, false)
 	}
 }
 
 // judgeNearMiss parses one re-joined text and applies the accepted/rejected oracle.
-func judgeNearMiss(c *driver.Ctx, r *rand.Rand, lines [][]string, indent []int32, op, baseText, baseJoined string, base bool) bool {
+func judgeNearMiss(c *driver.Ctx, r *rand.Rand, lines [][]string, indent []int32, vals map[string]string, op, baseText, baseJoined string, base bool) bool {
 	text, toks := joinLines(lines, indent)
 	nlines := strings.Count(text, "\n")
 	detail := func(extra map[string]any) map[string]any {
@@ -488,9 +580,9 @@ func judgeNearMiss(c *driver.Ctx, r *rand.Rand, lines [][]string, indent []int32
 		c.Violation("C14 near-miss accepted-tree-not-renderable", fmt.Sprintf("the tree returned for an accepted near-miss cannot be rendered: %v", p), detail(map[string]any{"panic": p.String()}))
 		return false
 	}
-	a := normalise(structure(toks))
-	s := normalise(structure(rtoks))
-	if same, diff := sameTokens(a, s); !same {
+	a := dropSelfAliases(normalise(structure(toks)), vals)
+	s := dropSelfAliases(normalise(structure(rtoks)), vals)
+	if same, diff := sameTokens(a, s, vals); !same {
 		if base {
 			c.Violation("C14 near-miss base-text-reparsed-with-other-tokens",
 				fmt.Sprintf("a valid text is accepted, but the tree it is given spells a different token sequence (%s): input %q, tree re-rendered %q", diff, text, rtext),
@@ -627,6 +719,12 @@ func specRejections(c *driver.Ctx) {
 	}
 	for _, t := range []string{"a, b, = 1, 2\n", "a, b = 1, 2,\n", "x = 1,\n", "return 1,\n", "for x in 1, 2,: pass\n"} {
 		texts = append(texts, st{"trailing-comma-outside-brackets", t})
+	}
+	// "The following tokens are keywords and may not be used as identifiers" / "The tokens below also may not be used
+	// as identifiers" (assert is excepted by the implementation note that follows the list).
+	for _, w := range []string{"and", "elif", "in", "or", "break", "else", "lambda", "pass", "continue", "for", "load", "return", "def", "if", "not", "while",
+		"as", "except", "nonlocal", "finally", "raise", "async", "from", "try", "await", "global", "with", "class", "import", "yield", "del", "is"} {
+		texts = append(texts, st{"reserved-word-as-identifier", w + " = 1\n"}, st{"reserved-word-as-identifier", "x = f(" + w + ")\n"}, st{"reserved-word-as-identifier", "def f(" + w + "): pass\n"})
 	}
 	for _, x := range texts {
 		t := x.text
